@@ -385,7 +385,7 @@ func checkAdminPredicates(c *km.Ctx, s *km.Sem) {
 			n := km.CalleeFull(ci.Common())
 			if n == getName || n == putName || n == RS+"_IsAdminUser" {
 				a := km.CallArgs(ci.Common())
-				ok := len(a) > 1 && km.Unwrap(a[1]) == ssa.Value(fn.Params[1])
+				ok := len(a) > 1 && km.Unwrap(a[1]) == ssa.Value(km.ParamAt(fn, 1))
 				r.Add("R-C08-2", km.FuncName(fn), "user operand of "+short(n), posOf(c, ci), "evaluated/cached for the user asked about", km.ValStr(a[1]), ok)
 			}
 		}
@@ -550,7 +550,7 @@ func checkAdminPredicates(c *km.Ctx, s *km.Sem) {
 			// true: must be under user == adminUser (config) or map lookup ok of an admin group
 			ok2 := rc.State.All(func(k km.Conj) bool {
 				for _, f := range k.List() {
-					if f.Op == token.EQL && ((f.X == ssa.Value(fn.Params[1]) && isConfigElem(f.Y, "AdminUsers")) || (f.Y == ssa.Value(fn.Params[1]) && isConfigElem(f.X, "AdminUsers"))) {
+					if f.Op == token.EQL && ((f.X == ssa.Value(km.ParamAt(fn, 1)) && isConfigElem(f.Y, "AdminUsers")) || (f.Y == ssa.Value(km.ParamAt(fn, 1)) && isConfigElem(f.X, "AdminUsers"))) {
 						return true
 					}
 					// a helper that says whether two lists share an element: configured admin groups x this user's groups
@@ -566,7 +566,7 @@ func checkAdminPredicates(c *km.Ctx, s *km.Sem) {
 					}
 					if list, elem, isM := membership(f); isM {
 						// user ∈ configured admin names
-						if elem == ssa.Value(fn.Params[1]) && isConfigList(list, "AdminUsers") {
+						if elem == ssa.Value(km.ParamAt(fn, 1)) && isConfigList(list, "AdminUsers") {
 							return true
 						}
 						// a configured admin group ∈ the groups looked up for this user
@@ -590,7 +590,7 @@ func derivesFromUserGroups(v ssa.Value, fn *ssa.Function, depth int) bool {
 	}
 	if cl, idx := callRes(v); cl != nil && idx == 0 && strings.HasSuffix(km.CalleeFull(cl.Common()), ".getUserGroups") {
 		a := km.CallArgs(cl.Common())
-		return len(a) == 2 && km.Unwrap(a[1]) == ssa.Value(fn.Params[1])
+		return len(a) == 2 && km.Unwrap(a[1]) == ssa.Value(km.ParamAt(fn, 1))
 	}
 	if mk, ok := v.(*ssa.MakeMap); ok {
 		// every key stored into the set is an element of a value that derives from the user's groups
@@ -638,9 +638,9 @@ func conjOfAdminAndU2F(c *km.Ctx, s *km.Sem, fn *ssa.Function, v ssa.Value, u2f 
 			return false
 		}
 		var k ssa.Value
-		if km.Unwrap(and.X) == ssa.Value(fn.Params[2]) {
+		if km.Unwrap(and.X) == ssa.Value(km.ParamAt(fn, 2)) {
 			k = and.Y
-		} else if km.Unwrap(and.Y) == ssa.Value(fn.Params[2]) {
+		} else if km.Unwrap(and.Y) == ssa.Value(km.ParamAt(fn, 2)) {
 			k = and.X
 		} else {
 			return false
@@ -658,7 +658,7 @@ func conjOfAdminAndU2F(c *km.Ctx, s *km.Sem, fn *ssa.Function, v ssa.Value, u2f 
 			return false
 		}
 		a := km.CallArgs(cl.Common())
-		return len(a) == 2 && km.Unwrap(a[1]) == ssa.Value(fn.Params[1])
+		return len(a) == 2 && km.Unwrap(a[1]) == ssa.Value(km.ParamAt(fn, 1))
 	}
 	phi, ok := km.Unwrap(v).(*ssa.Phi)
 	if !ok {
@@ -691,7 +691,7 @@ func conjOfAdminAndU2F(c *km.Ctx, s *km.Sem, fn *ssa.Function, v ssa.Value, u2f 
 				if and, ok := cf.X.(*ssa.BinOp); ok && and.Op == token.AND {
 					kv, ok1 := km.ConstInt(and.Y)
 					y, ok2 := km.ConstInt(cf.Y)
-					if ok1 && ok2 && kv == u2f && km.Unwrap(and.X) == ssa.Value(fn.Params[2]) && ((cf.Op == token.NEQ && y == 0) || (cf.Op == token.EQL && y == u2f)) {
+					if ok1 && ok2 && kv == u2f && km.Unwrap(and.X) == ssa.Value(km.ParamAt(fn, 2)) && ((cf.Op == token.NEQ && y == 0) || (cf.Op == token.EQL && y == u2f)) {
 						needBit = false
 					}
 				}
